@@ -526,7 +526,9 @@ def gen_string(rs, names: List[str]) -> str:
     if kind == "paren":
         return "%s(%s %s %s) %s %s <= %s" % (n(), v(), rs.choice(["+", "-"]), v(), rs.choice(["+", "-"]), v(), n())
     if kind == "arith":
-        return "(%s %s %s)%s%s <= (%s)" % (n(), rs.choice(["+", "*", "/", "-"]), rs.choice(["2", "4", "0.5"]), rs.choice(["", "*"]), v(), n())
+        # constant arithmetic, now and then with a zero divisor (written out or computed)
+        den = rs.choice(["2", "4", "0.5", "2", "4", "0", "(2-2)", "0.0"])
+        return "(%s %s %s)%s%s <= (%s)" % (n(), rs.choice(["+", "*", "/", "-", "/"]), den, rs.choice(["", "*"]), v(), n())
     if kind == "repeat":
         a = v()
         return "%s + %s%s - %s <= %s" % (a, n(), a, rs.choice([a, v()]), n())
